@@ -64,13 +64,34 @@ fn configs_a() -> Vec<YuvConfig> {
 }
 
 fn check_resolution(acc: &mut Acc, idx: u64, w: usize, h: usize, cfgs: &[YuvConfig]) {
-    // two differently padded frames with the same visible geometry
-    let mk_frame = |pad: usize| -> Frame<u8> {
-        Frame { planes: [Plane::new(w, h, 0, 0, pad, pad), Plane::new(w, h, 0, 0, pad, pad), Plane::new(w, h, 0, 0, pad, pad)] }
+    check_resolution_t::<u8>(acc, idx, w, h, cfgs, 8);
+    // the other storage / depth classes take different paths through the constructor (sample scan
+    // for u16 below 16 bit, none at 16 bit); sizes are limited where the scan would dominate
+    if w * h <= 20_000 {
+        check_resolution_t::<u16>(acc, idx, w, h, cfgs, 10);
+    }
+    if w * h <= 200_000 {
+        check_resolution_t::<u16>(acc, idx, w, h, cfgs, 16);
+    }
+}
+
+fn check_resolution_t<T: Pixel>(acc: &mut Acc, idx: u64, w: usize, h: usize, cfgs: &[YuvConfig], depth: u8) {
+    // two differently padded frames with the same visible geometry (samples are all 0: in range at any depth)
+    let mk_frame = |pad: usize| -> Frame<T> {
+        let mut f: Frame<T> = Frame { planes: [Plane::new(w, h, 0, 0, pad, pad), Plane::new(w, h, 0, 0, pad, pad), Plane::new(w, h, 0, 0, pad, pad)] };
+        for p in f.planes.iter_mut() {
+            for v in p.data.iter_mut() {
+                *v = T::cast_from(0u16);
+            }
+        }
+        f
     };
     let (f0, f1) = (mk_frame(0), mk_frame(3));
-    for c in cfgs {
-        let case = || json!({"kind":"c15res","w":w,"h":h,"cfg":cfg_json(c)});
+    for c0 in cfgs {
+        let mut cc = *c0;
+        cc.bit_depth = depth;
+        let c = &cc;
+        let case = || json!({"kind":"c15res","w":w,"h":h,"cfg":cfg_json(c),"u16":std::mem::size_of::<T>()==2});
         acc.states += 1;
         acc.transitions += 3;
         let mut seen = vec![];
@@ -112,6 +133,7 @@ fn check_resolution(acc: &mut Acc, idx: u64, w: usize, h: usize, cfgs: &[YuvConf
         }
         let unspec = (c.matrix_coefficients == MC::Unspecified) as u8 + (c.color_primaries == CP::Unspecified) as u8 + (c.transfer_characteristics == TC::Unspecified) as u8;
         acc.bucket(&format!("Yuv::new resolved per rule ({unspec} Unspecified fields)"), 1);
+        acc.bucket(&format!("Yuv::new resolved per rule, storage {} depth {depth}", if std::mem::size_of::<T>() == 2 { "u16" } else { "u8" }), 1);
         acc.bucket(&format!("resolved matrix {:?}", got.matrix_coefficients), (c.matrix_coefficients == MC::Unspecified) as u64);
         acc.bucket(&format!("resolved primaries {:?}", got.color_primaries), (c.color_primaries == CP::Unspecified) as u64);
     }
@@ -364,7 +386,7 @@ fn content_configs() -> Vec<YuvConfig> {
             }
             for &p in [CP::Unspecified, CP::BT709, CP::BT2020].iter() {
                 for &t in [TC::Unspecified, TC::SRGB, TC::BT1886].iter() {
-                    for (n, full) in [(8u8, false), (10, true)] {
+                    for (n, full) in [(8u8, false), (10, true), (16, false)] {
                         v.push(cfg_full(n, full, (0, 0), m, t, p));
                     }
                 }
@@ -379,7 +401,9 @@ pub fn run(tier: Tier) -> Report {
     // (a)
     let cfgs = configs_a();
     let hs = hs();
-    let sizes: Vec<(usize, usize)> = WS.iter().flat_map(|&w| hs.iter().map(move |&h| (w, h))).collect();
+    let mut sizes: Vec<(usize, usize)> = WS.iter().flat_map(|&w| hs.iter().map(move |&h| (w, h))).collect();
+    // beyond the sizes the property lists: dimensions at and above 2^16 (the rule has no upper limit)
+    sizes.extend([(65535, 2), (65536, 2), (65537, 1), (2, 65536), (2, 66112), (1, 70000)]);
     let acc = par_chunks(sizes.len() as u64, 1, |acc, lo, _| {
         let (w, h) = sizes[lo as usize];
         check_resolution(acc, lo, w, h, &cfgs);
@@ -438,7 +462,7 @@ pub fn run(tier: Tier) -> Report {
     }
     rep.acc.merge(acc);
     rep.bound = format!(
-        "(a) {} sizes (W in {:?} x H in {{1,2,3,479..=489,575,576,577,1080}}) x {} configs (all 15 matrix values x {{Unspecified + 3 values}} primaries x {{Unspecified + 3 values}} transfer, i.e. every subset of Unspecified fields) x 3 constructions (two paddings, repeated); all 19 x 14 label pairs for Rgb::new and Rgb::try_from((LinearRgb,..)); (b) {} sizes hitting every branch of the heuristic x {} configs x 3 source kinds into Yuv<u8>/Yuv<u16>, and every (t,p) pair with an Unspecified member into Rgb from LinearRgb and Xyb",
+        "(a) {} sizes (W in {:?} x H in {{1,2,3,479..=489,575,576,577,1080}}, plus six sizes with a dimension at or above 2^16; u8/8 bit everywhere, u16/10 bit and u16/16 bit on the smaller sizes) x {} configs (all 15 matrix values x {{Unspecified + 3 values}} primaries x {{Unspecified + 3 values}} transfer, i.e. every subset of Unspecified fields) x 3 constructions (two paddings, repeated); all 19 x 14 label pairs for Rgb::new and Rgb::try_from((LinearRgb,..)); (b) {} sizes hitting every branch of the heuristic x {} configs x 3 source kinds into Yuv<u8>/Yuv<u16>, and every (t,p) pair with an Unspecified member into Rgb from LinearRgb and Xyb",
         sizes.len(), WS, cfgs.len(), csizes.len(), ccfgs.len()
     );
     rep.rule = "(a) config()/transfer()/primaries() never Unspecified, equal to the reference transcription of the documented mpv rule, identical across repetitions and paddings; (b) whenever a conversion given Unspecified fields succeeds, its stored config must be the documented resolution and decoding the output with that stored config must reproduce the input within max(1, 0.015*(2^n-1)) codes after re-encoding".into();
@@ -447,6 +471,8 @@ pub fn run(tier: Tier) -> Report {
         rep.guard_bucket(k);
     }
     rep.guard_bucket("Yuv::new resolved per rule (3 Unspecified fields)");
+    rep.guard_bucket("Yuv::new resolved per rule, storage u16 depth 10");
+    rep.guard_bucket("Yuv::new resolved per rule, storage u16 depth 16");
     rep.guard_bucket("Rgb::new labels per rule");
     rep.guard_bucket("labels match content (src Lin)");
     rep.guard_bucket("labels match content (src Rgb)");
@@ -457,7 +483,14 @@ pub fn run(tier: Tier) -> Report {
 pub fn replay(case: &Value) -> (bool, String) {
     let mut acc = Acc::default();
     match case["kind"].as_str().unwrap() {
-        "c15res" => check_resolution(&mut acc, 0, case["w"].as_u64().unwrap() as usize, case["h"].as_u64().unwrap() as usize, &[cfg_from(&case["cfg"])]),
+        "c15res" => {
+            let (w, h, c) = (case["w"].as_u64().unwrap() as usize, case["h"].as_u64().unwrap() as usize, cfg_from(&case["cfg"]));
+            if case["u16"].as_bool().unwrap_or(false) {
+                check_resolution_t::<u16>(&mut acc, 0, w, h, &[c], c.bit_depth)
+            } else {
+                check_resolution_t::<u8>(&mut acc, 0, w, h, &[c], c.bit_depth)
+            }
+        }
         "c15rgb" => check_rgb_labels(&mut acc),
         "c15content" => {
             let src = match case["src"].as_str().unwrap() {
